@@ -10,5 +10,5 @@ CONSTANTS
   BaseCoins <- BaseDef
 INIT InitObs
 NEXT Stutter
-INVARIANTS ObsChainValid ObsUtxoIsReplay ObsNoInflation ObsNoFailedInChain ObsTipExact
+INVARIANTS ObsChainValid ObsUtxoIsReplay ObsNoInflation ObsNoFailedInChain ObsTipMostWork ObsTipExact
 CHECK_DEADLOCK FALSE
